@@ -172,6 +172,10 @@ func VerifCrash(kv map[string]string) string {
 	if kv["cm"] == "1" { // cert-manager support: challenge Ingresses are attached to the VirtualServer that owns their host
 		w.lbc.configuration.isCertManagerEnabled = true
 	}
+	// a GlobalConfiguration with a TCP and a UDP listener, so that TransportServers on custom listeners are generated too
+	gc := &conf_v1.GlobalConfiguration{ObjectMeta: metav1.ObjectMeta{Namespace: "nginx-ingress", Name: "nginx-configuration"}}
+	gc.Spec.Listeners = []conf_v1.Listener{{Name: "tcp1", Port: 5000, Protocol: "TCP"}, {Name: "udp1", Port: 5353, Protocol: "UDP"}}
+	_, _, _ = w.lbc.configuration.AddOrUpdateGlobalConfiguration(gc)
 	for _, m := range []string{"+s1/0", "+s2/0", "+e1.0/s1/a+b", "+e2.0/s2/a", "+k1/htpasswd/0", "+k2/jwk/0", "+k4/ca/0", "+k5/tls/0", "+p1/basic/k1/0", "+v9/s1/0"} {
 		w.apply(m)
 	}
